@@ -188,8 +188,9 @@ class Run:
         cov.update({k: val for k, val in self.extra.items() if k != "nontrivial_counted"})
         if self.traces_validated == 0:
             raise v.MachineryError("no trace of the implementation was validated")
-        v.write_evidence(self.prop, self.tier, self.seed, level, cov, wall, len(out),
-                         getattr(mod, "ASSUMPTIONS", []))
+        if not self.replay:      # a replay run re-checks one schedule; it does not describe a check run
+            v.write_evidence(self.prop, self.tier, self.seed, level, cov, wall, len(out),
+                             getattr(mod, "ASSUMPTIONS", []))
         for inv, p in out[:20]:
             print("VIOLATION property=%s replay=%s invariant=%s" % (self.prop, p, inv))
         return 1 if out else 0
